@@ -71,7 +71,11 @@ def parseFloatPartial (s : List Char) : FloatParse :=
     let mant := digitsVal 10 decVal (ip ++ fp)
     let mk (e10 : Int) : UInt64 :=
       let ex : Int := e10 - fp.length
-      if ex ≥ 0 then ratToF64 (mant * 10 ^ ex.toNat) 1 else ratToF64 mant (10 ^ (-ex).toNat)
+      -- clamp: value ≥ 10^ex and value < 10^(ex + #digits); far outside binary64's range
+      if mant = 0 then 0
+      else if ex > 400 then 0x7FF0000000000000
+      else if ex + (ip.length + fp.length : Nat) < -400 then 0
+      else if ex ≥ 0 then ratToF64 (mant * 10 ^ ex.toNat) 1 else ratToF64 mant (10 ^ (-ex).toNat)
     match r2 with
     | c :: t =>
       if c == 'e' || c == 'E' then
